@@ -262,18 +262,17 @@ def orderStakes (order : List Addr) (l : List (Addr × Nat)) : List (Addr × Nat
 
 def snapshotPayouts (P : Params) (h : Nat) (ts : Int) (rates : TMap) (order : List Addr := []) : LM Unit := do
   -- SnapshotCurrent
-  M.modify fun db => { db with snapPast := db.snapCur, snapCur := db.addrs }
+  M.guarded (fun _ => none) fun db => { db with snapPast := db.snapCur, snapCur := db.addrs }
   let db ← M.get
   -- inner join on address, MIN per asset
   let joined := db.snapCur.filterMap fun c =>
     match findRow db.snapPast c.addr with
     | some p => some (c.addr, c.bals, p.bals)
     | none => none
-  let staked ← (joined.foldl (fun (acc : LM (List (Addr × Nat))) j => do
-      let l ← acc
+  let staked ← M.foldM (fun (l : List (Addr × Nat)) j =>
       match stakeOf P h rates j.2.1 j.2.2 with
       | none => M.throw (.uncaught "staking valuation: convert failed")
-      | some s => pure (l ++ [(j.1, s)])) (pure []))
+      | some s => pure (l ++ [(j.1, s)])) [] joined
   if staked.any (fun p => decide (p.2 > maxUint64)) then M.throw (.uncaught "balance that is not uint64")
   let list := orderStakes order (staked.filter (fun p => decide (p.2 > 0)))
   if !list.isEmpty then do
@@ -355,17 +354,15 @@ def applyHeld (P : Params) (h : Nat) (rates avgs : TMap) (e : TxEntry) : LM Bool
     the pool), `avgs` = averages at the last rated height before `h`, `from` that height. -/
 def applyHolding (P : Params) (c : DB) (h : Nat) (rates avgs : TMap) (fromH : Nat) : LM Unit := do
   let heights := (List.range (h - fromH)).map (· + fromH)
-  let pegs ← heights.foldl (fun (acc : LM (List TxEntry)) i => do
-      let pend ← acc
+  let pegs ← M.foldM (fun (pend : List TxEntry) i => do
       let held := (c.holding.filter (·.height == i)).map (·.entry)
-      let pend ← held.foldl (fun (acc2 : LM (List TxEntry)) e => do
-          let l ← acc2
+      let pend ← M.foldM (fun (l : List TxEntry) e => do
           let join ← applyHeld P h rates avgs e
-          pure (if join then l ++ [e] else l)) (pure pend)
+          pure (if join then l ++ [e] else l)) pend held
       if h ≥ P.act.convLimit ∧ h < P.act.v4 then do
         recordPegRequests P h rates avgs pend P.bankBase ((h : Int) - 1)
         pure []
-      else pure pend) (pure [])
+      else pure pend) [] heights
   if h ≥ P.act.v4 ∧ h < P.act.v20 then do
     let db ← M.get
     let bank := db.bankAmount h
@@ -476,7 +473,7 @@ def syncBlock (P : Params) (c : DB) (b : Block) (avgs : TMap) : LM Unit := do
         snapshotPayouts P h b.ts rates1 b.stakeOrder
       if ratesAvailable then
         if h ≥ P.act.v4 ∧ h < P.act.v20 then insertBank h P.bankBase
-        M.modify fun db => { db with avgTouched := true }
+        M.guarded (fun _ => none) fun db => { db with avgTouched := true }
         applyHolding P c h rates0 avgs (c.mostRecentRatesBefore h).2
       match b.txs with
       | some entries => applyTransactionBlock P h b.txKeymr entries
